@@ -80,6 +80,12 @@ let run_f64 (op : string) (args : sexp list) : string =
       ^ " " ^ dec_of_n (f_to_usize x) ^ " " ^ atom_of_f64 (f_of_Z (f_to_i64 x))
   | _ -> "unknown-op " ^ op
 
+let uni_tables () : string =
+  let rs name l = name ^ " " ^ String.concat "," (List.map (fun (a, b) -> Printf.sprintf "%d-%d" (int_of_n a) (int_of_n b)) l) in
+  let lower = String.concat "," (List.map (fun (k, v) -> Printf.sprintf "%d:%s" (int_of_n k) (String.concat "+" (List.map (fun x -> string_of_int (int_of_n x)) v))) tolower_table) in
+  String.concat ";" [rs "alphabetic" alphabetic_ranges; rs "numeric" numeric_ranges; rs "whitespace" whitespace_ranges;
+                     rs "uppercase" uppercase_ranges; rs "lowercase" lowercase_ranges; "tolower " ^ lower]
+
 let run_uni (lo : int) (hi : int) : string =
   (* a digest line per code point would be large: print per-code-point flags compactly *)
   let b = Buffer.create ((hi - lo) * 4) in
@@ -104,6 +110,9 @@ let run_case (line : string) : string =
           (match suite with
            | "val" -> run_val op args
            | "f64" -> run_f64 op args
+           | "uni" when op = "tables" -> uni_tables ()
+           | "uni" when op = "points" ->
+               String.concat ";" (List.map (fun a -> match a with A x -> let c = int_of_string x in run_uni c (c + 1) | _ -> "") args)
            | "uni" -> run_uni (int_of_string op) (match args with [A h] -> int_of_string h | _ -> 0)
            | _ -> Ext.run suite op args)
         with
